@@ -132,7 +132,14 @@ impl StreamingSound {
 			.unwrap();
 		let (a, b) = chunk.as_slices();
 		let mut iter = a.iter().chain(b.iter());
-		if let Some(TimestampedFrame { index, .. }) = iter.nth(1) {
+		let previous = iter.next();
+		if let Some(TimestampedFrame { index, .. }) = iter.next() {
+			self.current_frame = *index;
+		} else if let (Some(TimestampedFrame { index, .. }), true) =
+			(previous, self.shared.reached_end())
+		{
+			// the last frame of the sound is the only one left in the buffer:
+			// report it rather than wherever playback was one callback ago
 			self.current_frame = *index;
 		}
 	}
